@@ -113,6 +113,17 @@ static void blk_oneshot(void) {
 	}
 }
 static const size_t KEYLENS64[] = { 1, 12, 31, 32, 63, 64, 65, 128, 200 }, KEYLENS128[] = { 1, 12, 64, 127, 128, 129, 200, 256, 300 };
+/* dispatch by name: digest_from_name (lower and upper case) hands out the descriptor whose one-shot digest equals the reference for that algorithm,
+   digest_name names it back, descriptor sizes agree with the algorithm */
+static void blk_names(void) {
+	if (!vh_block_begin("names")) return; static const char *NM[][2] = { { "sm3", "SM3" }, { "sha1", "SHA1" }, { "sha224", "SHA224" }, { "sha256", "SHA256" }, { "sha384", "SHA384" }, { "sha512", "SHA512" } };
+	for (int a = 0; a < 6; a++) for (int c = 0; c < 2; c++) { if (!vh_next()) continue; const alg_t *A = &ALG[a]; const DIGEST *d = digest_from_name(NM[a][c]); vh_eval(vh_mix(a * 2 + c + 991)); char key[96];
+		if (!d) { snprintf(key, sizeof key, "C03:names:%s:unknown-name", A->name); vh_viol(key, "\"name\":\"%s\"", NM[a][c]); continue; }
+		uint8_t out[64], exp[64]; size_t ol = 0; static uint8_t msg[300]; for (int i = 0; i < 300; i++) msg[i] = (uint8_t)(i * 5 + a); int r = digest(d, msg, 200 + a, out, &ol); ref_digest(A->oname, msg, 200 + a, exp);
+		if (r != 1 || ol != A->dlen || memcmp(out, exp, A->dlen)) { snprintf(key, sizeof key, "C03:names:%s:descriptor-by-name-computes-another-function", A->name); vh_viol(key, "\"name\":\"%s\",\"outlen\":%zu", NM[a][c], ol); }
+		if (d->digest_size != A->dlen || d->block_size != A->B) { snprintf(key, sizeof key, "C03:names:%s:descriptor-sizes", A->name); vh_viol(key, "\"digest_size\":%zu,\"block_size\":%zu", (size_t)d->digest_size, (size_t)d->block_size); }
+		const char *back = digest_name(d); if (!back || digest_from_name(back) != d) { snprintf(key, sizeof key, "C03:names:%s:digest_name-does-not-name-it-back", A->name); vh_viol(key, "\"got\":\"%s\"", back ? back : "(null)"); } }
+}
 static void blk_hmac(void) {
 	if (!vh_block_begin("hmac")) return;
 	for (size_t a = 0; a < NALG; a++) {
@@ -249,6 +260,6 @@ static void selftest(void) {
 }
 int main(int argc, char **argv) {
 	vh_init(argc, argv); if (!freopen("/dev/null", "w", stderr)) {} fill(); selftest();
-	blk_oneshot(); blk_hmac(); blk_hkdf(); blk_pbkdf2(); blk_long_outputs(); blk_kdf(); blk_automaton(); blk_cuts3(); blk_long();
+	blk_oneshot(); blk_names(); blk_hmac(); blk_hkdf(); blk_pbkdf2(); blk_long_outputs(); blk_kdf(); blk_automaton(); blk_cuts3(); blk_long();
 	return vh_finish();
 }
